@@ -31,7 +31,10 @@ def _hist_c14(line):
         return []
     f = _fields(line)
     if "file" in f:
-        return ["bundled-file"]
+        # inst=1: the driver must recognise the file as an instance of C14.reader_roundtrip; inst=0: declared not to be
+        # one (records compared with the model only) -- anything else is a DIFF
+        return ["bundled-file", "bundled-file-" + ("compared-with-theorem-expected-records(inst=1)" if f.get("inst") == "1"
+                                                   else "NOT-compared-with-what-is-written(inst=%s)" % f.get("inst", "?"))]
     n = f.get("recs", "").count(";") + 1
     keys = ["alpha=" + f.get("alpha", "?"), "le=" + f.get("le", "?"), "fnl=" + f.get("fnl", "?"),
             "vv=" + ("yes" if f.get("vv", "-") != "-" else "no"),
@@ -62,6 +65,8 @@ def _hist_c15(line):
         keys.append("io-fault-scripts=%d" % (f["evs"].count("/") + 1))
         if "Ei" in f["evs"]:
             keys.append("io-interrupted")
+        if "Ez" in f["evs"]:
+            keys.append("io-transient-end-of-input")
     try:
         b = bytes.fromhex(d)
         try:
